@@ -537,6 +537,9 @@ def run(out, drv, info):
                                                                       'tier': out.tier, 'request_digest': digest(req)})
             else:
                 out.traces_validated += 1
+    # path arguments → recorded files on real directory trees (harness/impl/c01_pathwalk.py, model ReplicatModel/PathWalk.lean)
+    from ..impl import c01_pathwalk
+    c01_pathwalk.run_stream(out, drv, info)
     # one multi-piece case (file larger than the 16 MiB read piece) in the thorough tier
     if not quick:
         big = big_file_case(out.seed)
@@ -601,6 +604,9 @@ def replay(path, drv):
                     bad += 1
                     print('disagreement', kind, b[:2])
         return 1 if (res['violations'] or bad) else 0
+    if rp.get('kind') == 'pathwalk':
+        from ..impl import c01_pathwalk
+        return c01_pathwalk.replay_case(rp, drv)
     if rp.get('kind') == 'big':
         res = big_file_case(d.get('seed', 0))
         return 1 if res['violations'] else 0
